@@ -167,6 +167,17 @@ def run(ctx):
         full = [r["max_ahead"] for r in rs if r["take"] is None]
         if len(set(full)) > 1:
             ctx.report({"kind": "readahead-depends-on-length", "stage": "lazy_pool"}, f"LazyPool({T}) read-ahead depends on the input length: {full}", {"runs": rs})
+    # ---- lazy pool under adversarial schedules (the scheduler always prefers the workers / the consumer)
+    sargs = [{"T": T, "n": n, "stop_after": take, "policy": pol, "pull_limit": 400, "seed": 1}
+             for T in [1, 2, 3] for (n, take) in [(None, 3), (150, 3), (40, None)] for pol in ["workers_first", "consumer_first"]]
+    sres = child.call("harness.checks.c13", "run_cases", sargs, timeout=600)
+    for r in sres:
+        a = r["case"]; T = a["T"]
+        ahead = r["pulled"] - len(r["got"])
+        if r.get("exc") == "pull-limit" or r["status"] != "done" or ahead > 3 * T + 3:
+            ctx.report({"kind": "readahead", "stage": "lazy_pool", "schedule": a["policy"]},
+                       f"LazyPool({T}) under the {a['policy']} schedule pulled {r['pulled']} inputs for {len(r['got'])} results (n={a['n']}, status {r['status']} {r.get('exc', '')})",
+                       {"case": a, "pulled": r["pulled"], "got": len(r["got"]), "labels": r["labels"][:60]})
     # ---- end to end: shard opens for k examples of a repeating stream
     eargs = []
     for i, fmt in enumerate(["fb", "npz"]):
@@ -195,7 +206,7 @@ def run(ctx):
                    {"correspondence": "M-ITER max_ahead/max_open vs measured", "theorem": "Sedpack.Pipe.C14_shuffle_buffer_readahead / C14_round_robin_readahead", "cases": corr_bad[:3]},
                    name="corr", nofail=True)
     ctx.cov.update({
-        "evaluations": len(obs) + len(pres) + nrun, "distinct_nontrivial": len({(k, b, n, t) for k, b, n, t, *_ in obs}) + len(pres),
+        "evaluations": len(obs) + len(pres) + nrun + len(sres), "scheduled_pool_runs": len(sres), "distinct_nontrivial": len({(k, b, n, t) for k, b, n, t, *_ in obs}) + len(pres),
         "traces_validated_against_impl": len(obs) - len(corr_bad),
         "rule": "shuffle_buffer / round_robin on counting sources: b in {1,2,3,7}, lengths around b, infinite sources with take in {1,b,2b+1}; "
                 "LazyPool(T) for T in {1,2,4} on inputs of length 60, 600 and infinite; end to end: shard files opened for 7 examples of a "
